@@ -80,4 +80,14 @@ theorem listing_spec (cfg : Cfg) (d : Decoder) (crc : Checksum) (files : List By
   rw [this.1 x]
   simp
 
+/-- `listSwamps`: the page `[off, off+lim)` of the *sorted* listing (sorting happens before slicing) -/
+def page (sorted : List Bytes) (off lim : Nat) : List Bytes := (sorted.drop off).take lim
+
+/-- consecutive pages tile the listing: nothing is skipped, nothing repeated -/
+theorem page_tiles (sorted : List Bytes) (off lim : Nat) :
+    page sorted off lim ++ sorted.drop (off + lim) = sorted.drop off := by
+  unfold page
+  rw [← List.drop_drop]
+  exact List.take_append_drop lim (sorted.drop off)
+
 end Hv.Storage
